@@ -839,7 +839,9 @@ def rules(tier):
             # C04-ea: load_grammar hands skip_brute to _load_terminals in the place of skip_case
             ('C04.R23', _shared_rule('c14', 'r13_options_forwarded')),
             # C04-eb: _find_cp result cache without bottom_level
-            ('C04.R24', _shared_rule('c10', 'r25_cracker_plumbing'))] + _loader_bundle() + []
+            ('C04.R24', _shared_rule('c10', 'r25_cracker_plumbing')),
+            # C04-fb: the scan for the first populated OMEN level started at level 1
+            ('C04.R25', _shared_rule('c10', 'r23_cursor_starts'))] + _loader_bundle() + []
 
 
 META = {
